@@ -203,7 +203,9 @@ func runC13(c *Ctx) {
 			checkCallArgs(c, "R1", funcName(tip), p, in, []fieldSrc{
 				{"start", isParamField(tip, 0, "Start"), "ir.Start"},
 				{"end", isParamField(tip, 0, "End"), "ir.End"},
-				{"auditPath", func(t *Term) bool { return isCallNamed("ParseAuditPath")(t) && isParamField(tip, 0, "AuditPath")(t.Args[0]) }, "ParseAuditPath(ir.AuditPath)"},
+				{"auditPath", func(t *Term) bool {
+					return isCallNamed("ParseAuditPath")(t) && isParamField(tip, 0, "AuditPath")(t.Args[0])
+				}, "ParseAuditPath(ir.AuditPath)"},
 			})
 		}
 	})
